@@ -12,13 +12,17 @@ from .vlib import log
 class AtomicPart:
     def __init__(self, name, scn_cpp, lib_sources, model, scenarios, std=None, extra_flags=(),
                  quick=dict(preemptions=2, max_execs=4000), thorough=dict(preemptions=3, max_execs=60000),
-                 random_execs=(300, 5000), harness_args=(), extra_srcs=(), on_runs=None):
+                 random_execs=(300, 5000), harness_args=(), always_report_rejected=False, extra_srcs=(), on_runs=None):
         self.name, self.scn_cpp, self.lib_sources, self.model = name, scn_cpp, lib_sources, model
         self.scenarios, self.std, self.extra_flags = scenarios, std, extra_flags
         self.quick, self.thorough, self.random_execs = quick, thorough, random_execs
         self.harness_args = list(harness_args)
         self.extra_srcs = list(extra_srcs)   # further harness/rt runtime files (vlib.build_rt extra_srcs)
         self.on_runs = on_runs               # optional hook: on_runs(scenario, runs, cov) after the runs of a scenario
+        # report histories the model does not admit even if a monitor fired in the same scenario (for
+        # scenarios with an open known finding whose failing histories the model DOES admit: the tie
+        # must stay alive there)
+        self.always_report_rejected = always_report_rejected
 
     def run(self, tier, seed, verdict, cov, driver):
         t0 = time.time()
@@ -68,7 +72,7 @@ class AtomicPart:
                 # tie (the property is no longer shown to hold) without a failing input.
                 cov["rejected_histories"] += len(rejected)
                 had_monitor = any(v[0].startswith(f"{self.name}/{scn}:") for v in verdict.violations)
-                if not had_monitor:
+                if not had_monitor or self.always_report_rejected:
                     h, sched, ans = rejected[0]
                     verdict.add(f"{self.name}/{scn}: history not admitted by Lean model {self.model}",
                                 f"{len(rejected)} of {len(seen)} distinct histories are not traces of the model ({ans})",
